@@ -6,6 +6,7 @@ package main
 import (
 	"fmt"
 	"go/types"
+	"regexp"
 	"strings"
 
 	"golang.org/x/tools/go/ssa"
@@ -374,14 +375,22 @@ func (fx *FnCtx) applyContract(st *State, fr *callFrame, site ssa.Instruction, k
 			fx.havocTarget(st, t)
 		}
 	}
+	// the callee may allocate
+	nt := fx.fresh("top", "Int")
+	fx.sol.Assert(tCmp(">=", nt, st.allocTop))
+	st.allocTop = nt
 	var res *Val
 	if rt != nil {
 		res = st.freshVal(rt, "r_"+sanitize(short))
 	}
 	env.st = st
 	bindResults(env, cc.Signature(), res)
+	feasibleBefore := fx.sol.Feasible()
 	for _, e := range con.Ensures {
 		fx.sol.Assert(env.evalBool(e.E))
+	}
+	if feasibleBefore && len(con.Ensures) > 0 && !fx.sol.Feasible() {
+		fx.unsupported("the assumed postcondition of " + short + " contradicts the caller's state (inconsistent contract)")
 	}
 	k(st, res)
 }
@@ -416,13 +425,25 @@ func (fx *FnCtx) atCalls(st *State, key string, env *SpecEnv) {
 			}
 		}
 		g := cenv.evalBool(ac.E)
+		fx.exercised[ac] = true
 		fx.oblige(st, fx.oname("at-call", calleeShort(key)+"]"+ac.Tag()), "at-call", &ac.Clause, g)
 	}
 }
 
+var calleeRe = regexp.MustCompile(`^\(?(\*?)([\w./]*?)(\w+)\)?\.([\w$]+)$`)
+
 func calleeMatches(pat, key string) bool {
 	if pat == key {
 		return true
+	}
+	if !strings.HasPrefix(pat, "invoke ") && !strings.HasPrefix(pat, "field ") && !strings.HasPrefix(key, "invoke ") && !strings.HasPrefix(key, "field ") {
+		pm, km := calleeRe.FindStringSubmatch(pat), calleeRe.FindStringSubmatch(key)
+		if pm != nil && km != nil && pm[1] == km[1] && pm[3] == km[3] && pm[4] == km[4] {
+			q := strings.Trim(pm[2], "./")
+			if q == "" || strings.Contains(km[2], q) {
+				return true
+			}
+		}
 	}
 	k := calleeShort(key)
 	p := calleeShort(pat)
@@ -459,6 +480,9 @@ func (fx *FnCtx) checkFrameTarget(st *State, t *assignTarget, callee string) {
 		if o.kind == "obj" && t.kind == "field" && strings.HasPrefix(t.key, o.key) {
 			alts = append(alts, tEq(t.ref, o.ref))
 		}
+		if (o.kind == "cell" || o.kind == "mem") && (t.kind == "cell" || t.kind == "mem") && strings.HasPrefix(t.key, strings.TrimSuffix(o.key, "|")) && t.ref != "" {
+			alts = append(alts, tEq(t.ref, o.ref))
+		}
 	}
 	fx.oblige(st, fx.oname("frame", "call "+callee+" assigns "+t.src), "frame", nil, tOr(alts...))
 }
@@ -469,7 +493,7 @@ func (fx *FnCtx) havocTarget(st *State, t *assignTarget) {
 		st.havocAllKeepLocks()
 	case "ghost":
 		st.havocKey(t.key)
-	case "field", "obj":
+	case "field", "obj", "cell":
 		st.storeLoc(t.loc, st.freshVal(t.loc.T, "hv"))
 	case "mem":
 		var ls []leaf
